@@ -237,22 +237,47 @@ theorem G.map_ok {α β} (f : α → β) (x : G α) (s : P) (r : β × P) :
   rw [G.bind_ok]; simp
 
 /-- `x` preserves the state predicate `I` on every successful run -/
-def Pres (I : P → Prop) {α} (x : G α) : Prop := ∀ s r, I s → x s = .ok r → I r.2
+structure Pres (I : P → Prop) {α} (x : G α) : Prop where
+  run : ∀ s r, I s → x s = .ok r → I r.2
 
 theorem Pres.bind {I : P → Prop} {α β} {x : G α} {f : α → G β} (hx : Pres I x)
     (hf : ∀ a, Pres I (f a)) : Pres I (x >>= f) := by
-  intro s r hs h
+  refine ⟨fun s r hs h => ?_⟩
   obtain ⟨a, s1, h1, h2⟩ := (G.bind_ok x f s r).mp h
-  exact hf a s1 r (hx s (a, s1) hs h1) h2
+  exact (hf a).run s1 r (hx.run s (a, s1) hs h1) h2
 
 theorem Pres.pure {I : P → Prop} {α} (a : α) : Pres I (pure a : G α) := by
-  intro s r hs h; simp at h; subst h; exact hs
+  refine ⟨fun s r hs h => ?_⟩; simp at h; subst h; exact hs
 
 theorem Pres.fail {I : P → Prop} {α} (o : Outcome) : Pres I (fail o : G α) := by
-  intro s r _ h; simp at h
+  refine ⟨fun s r _ h => ?_⟩; simp at h
 
 theorem Pres.panic {I : P → Prop} {α} (site : String) : Pres I (panic site : G α) := by
-  intro s r _ h; simp at h
+  refine ⟨fun s r _ h => ?_⟩; simp at h
+
+theorem pres_andM {I : P → Prop} {x y : G Bool} (hx : Pres I x) (hy : Pres I y) :
+    Pres I (x <&&> y) := by
+  unfold _root_.andM
+  refine Pres.bind hx ?_
+  intro b; cases b
+  · exact Pres.pure _
+  · exact hy
+
+theorem pres_orM {I : P → Prop} {x y : G Bool} (hx : Pres I x) (hy : Pres I y) :
+    Pres I (x <||> y) := by
+  unfold _root_.orM
+  refine Pres.bind hx ?_
+  intro b; cases b
+  · exact hy
+  · exact Pres.pure _
+
+theorem pres_notM {I : P → Prop} {x : G Bool} (hx : Pres I x) : Pres I (notM x) := by
+  unfold _root_.notM
+  refine ⟨fun s r hs h => ?_⟩
+  rw [G.map_ok] at h
+  obtain ⟨a, s1, h1, h2⟩ := h
+  subst h2
+  exact hx.run s (a, s1) hs h1
 
 theorem Pres.ite {I : P → Prop} {α} (c : Prop) [Decidable c] {x y : G α} (hx : Pres I x)
     (hy : Pres I y) : Pres I (if c then x else y) := by
@@ -262,7 +287,7 @@ theorem Pres.ite {I : P → Prop} {α} (c : Prop) [Decidable c] {x y : G α} (hx
 def ReadOnly {α} (x : G α) : Prop := ∀ s r, x s = .ok r → r.2 = s
 
 theorem ReadOnly.pres {I : P → Prop} {α} {x : G α} (h : ReadOnly x) : Pres I x := by
-  intro s r hs hr; rw [h s r hr]; exact hs
+  refine ⟨fun s r hs hr => ?_⟩; rw [h s r hr]; exact hs
 
 /-- `Inv` only looks at five fields -/
 theorem Inv.congr {kinds joint} {s s' : P} (h : Inv kinds joint s) (h1 : s'.kinds = s.kinds)
@@ -279,7 +304,7 @@ theorem current_readOnly : ReadOnly current := by
   intro s r h; rw [current_ok] at h; subst h; rfl
 
 theorem nth_pres {kinds joint} (n : Nat) : Pres (Inv kinds joint) (nth n) := by
-  intro s r hs h
+  refine ⟨fun s r hs h => ?_⟩
   unfold nth at h
   simp only [G.get_bind_ok] at h
   split at h
@@ -399,7 +424,7 @@ theorem Inv.push_inert {kinds joint} {s : P} (h : Inv kinds joint s) (e : Ev) (h
   · simp only [Array.toList_push, glueOK_append, h.glue, glueOK_inert _ _ e he, Bool.and_self]
 
 theorem error_pres {kinds joint} (msg : String) : Pres (Inv kinds joint) (error msg) := by
-  intro s r hs h
+  refine ⟨fun s r hs h => ?_⟩
   have := pushEvent_ok _ s r h
   subst this
   exact hs.push_inert _ rfl _
@@ -420,7 +445,7 @@ theorem start_ok (s : P) (r : Marker × P) (h : start s = .ok r) :
   exact h5
 
 theorem start_pres {kinds joint} : Pres (Inv kinds joint) start := by
-  intro s r hs h
+  refine ⟨fun s r hs h => ?_⟩
   have := start_ok s r h
   subst this
   exact (hs.push_inert Ev.tombstone rfl (s.sinceBump + 1)).congr rfl rfl rfl rfl rfl
@@ -538,7 +563,7 @@ theorem at_true {kinds joint} {s : P} (hT : TablesOK) (hs : Inv kinds joint s) (
     · simp at hlen
 
 theorem eat_pres {kinds joint} (hT : TablesOK) (k : SyntaxKind) : Pres (Inv kinds joint) (eat k) := by
-  intro s r hs h
+  refine ⟨fun s r hs h => ?_⟩
   unfold eat at h
   split at h
   · simp at h
@@ -570,7 +595,7 @@ theorem bump_pres {kinds joint} (hT : TablesOK) (k : SyntaxKind) : Pres (Inv kin
   · exact Pres.pure _
 
 theorem bumpAny_pres {kinds joint} : Pres (Inv kinds joint) bumpAny := by
-  intro s r hs h
+  refine ⟨fun s r hs h => ?_⟩
   unfold bumpAny at h
   simp only [G.bind_ok] at h
   obtain ⟨k, s1, h1, h2⟩ := h
@@ -618,7 +643,7 @@ theorem getElem?_set_start (l : List Ev) (t i : Nat) (k k' : SyntaxKind) (fp fp'
 
 theorem complete_pres {kinds joint} (m : Marker) (kind : SyntaxKind) :
     Pres (Inv kinds joint) (m.complete kind) := by
-  intro s r hs h
+  refine ⟨fun s r hs h => ?_⟩
   unfold Marker.complete at h
   simp only [G.get_bind_ok] at h
   cases hm : s.events[m.pos]? with
@@ -690,7 +715,7 @@ theorem dropLast_eq (l : List Ev) (x : Ev) (h : l.getLast? = some x) : l = l.dro
   rw [h] at this; exact this.symm
 
 theorem abandon_pres {kinds joint} (m : Marker) : Pres (Inv kinds joint) m.abandon := by
-  intro s r hs h
+  refine ⟨fun s r hs h => ?_⟩
   unfold Marker.abandon at h
   simp only [G.get_bind_ok] at h
   split at h
@@ -794,12 +819,12 @@ theorem Inv.set_link {kinds joint} {s : P} (h : Inv kinds joint s) (c : Nat) (k 
   · simp only [toList_set!, glueOK_set_start _ _ _ _ _ _ _ _ hc, h.glue]
 
 theorem precede_pres {kinds joint} (cm : CompletedMarker) : Pres (Inv kinds joint) cm.precede := by
-  intro s r hs h
+  refine ⟨fun s r hs h => ?_⟩
   unfold CompletedMarker.precede at h
   obtain ⟨np, s1, h1, h2⟩ := (G.bind_ok _ _ _ _).mp h
   have hst := start_ok s (np, s1) h1
   obtain ⟨hnp, hs1eq⟩ := Prod.mk.inj hst
-  have hs1 := start_pres (kinds := kinds) (joint := joint) s _ hs h1
+  have hs1 := (start_pres (kinds := kinds) (joint := joint)).run s _ hs h1
   simp only at hs1
   have hsz : s1.events.toList.length = s.events.size + 1 := by rw [hs1eq]; simp
   have hnew : s1.events.toList[s.events.size]? = some Ev.tombstone := by rw [hs1eq]; simp
@@ -833,7 +858,7 @@ theorem precede_pres {kinds joint} (cm : CompletedMarker) : Pres (Inv kinds join
 
 theorem extendTo_pres {kinds joint} (cm : CompletedMarker) (m : Marker) :
     Pres (Inv kinds joint) (cm.extendTo m) := by
-  intro s r hs h
+  refine ⟨fun s r hs h => ?_⟩
   unfold CompletedMarker.extendTo at h
   simp only [G.get_bind_ok] at h
   cases hm : s.events[m.pos]? with
